@@ -251,6 +251,13 @@ def run_check(prop, tier, seed, campaign, replay=None):
                                    signature='%s impl-raised %s' % (prop, type(ex).__name__),
                                    traceback=_tb.format_exception(type(ex), ex, ex.__traceback__)))
 
+    if res.divergences and replay is None and prop not in ('C01', 'C03'):
+        # model and code part on some scenario: look for an input on which the real code breaks the property itself
+        try:
+            import props_session
+            props_session.extend_search(prop, ctx, res)
+        except Exception:
+            pass
     kf = known_findings()
     open_sigs = [(sg, e) for e in kf.get('open', []) if prop in e.get('properties', []) for sg in e.get('signatures', {}).get(prop, [])]
     lines, exit_code, nviol = [], 0, 0
